@@ -362,6 +362,9 @@ func streamSuite(r *Run, prop string) {
 	if prop != "C03" {
 		hcSuite(r, prop)
 	}
+	if prop == "C01" || prop == "C02" || prop == "C03" || prop == "C08" {
+		hsSuite(r, prop)
+	}
 	extraChecks(r, prop)
 }
 
